@@ -188,7 +188,8 @@ def main():
         for pos in v["pos"]:
             fps.update(mir.fingerprints(pos, kind, msg, via))
         entries.append({"key": key, "status": "infeasible", "max_distinct_locations": npos,
-                        "applies": hit[1], "reason": hit[2], "fingerprints": sorted(fps)})
+                        "applies": hit[1], "reason": hit[2], "fingerprints": sorted(fps),
+                        "caller_fingerprints": mir.caller_fingerprints(parts[0])})
     for i, r in enumerate(RULES):
         if i not in used:
             print("rule matched nothing:", r[0])
